@@ -262,3 +262,18 @@ mod tests {
         assert!(result.is_err());
     }
 }
+
+#[cfg(feature = "verif")]
+impl MatrixConnector {
+    pub fn verif_data(&self) -> &[i16] {
+        &self.data
+    }
+
+    pub fn verif_parse_header(line: &str) -> Result<(usize, usize)> {
+        Self::parse_header(line)
+    }
+
+    pub fn verif_parse_body(line: &str) -> Result<(usize, usize, i16)> {
+        Self::parse_body(line)
+    }
+}
